@@ -228,7 +228,16 @@ def emit(repo, spec, H):
     plumbing("copy_gr", "mfhdf/hrepack/hrepack_gr.c", "copy_gr", "GRgetiminfo", "GRcreate",
              [("reqil", "GRreqimageil", 0), ("read", "GRreadimage", 0), ("write", "GRwriteimage", 0)])
     plumbing("copy_sds", "mfhdf/hrepack/hrepack_sds.c", "copy_sds", "SDgetinfo", "SDcreate",
-             [("create2", "SDcreate", 1)])
+             [("create2", "SDcreate", 1), ("diminfo", "SDdiminfo", 0), ("setdimname", "SDsetdimname", 1),
+              ("getdimscale", "SDgetdimscale", 0), ("setdimscale", "SDsetdimscale", 0)])
+    # the guard of the dimension-scale copy
+    bsds = H.func_body(H.raw(repo, "mfhdf/hrepack/hrepack_sds.c"), "copy_sds")
+    mg = re.findall(r"if\s*\(([^;{}]*)\)\s*\{\s*int\s+okdim\s*;", bsds)
+    if len(mg) != 1:
+        raise ValueError("copy_sds: guard of the dimension scale copy not found exactly once")
+    out.append("(* mfhdf/hrepack/hrepack_sds.c: copy_sds: the dimension scale is copied if (%s) *)" % " ".join(mg[0].split()))
+    out.append("Definition sds_scale_guard (dtype dim_size : Z) : Z := %s." % H.P(
+        " ".join(mg[0].split()), ["dtype", "dim_size"], {}).ternary_all())
     plumbing("copy_vs", "mfhdf/hrepack/hrepack_vs.c", "copy_vs", "VSinquire", "VSsetinterlace",
              [("fdefine", "VSfdefine", 0), ("setfields_out", "VSsetfields", 0), ("setfields_in", "VSsetfields", 1),
               ("read", "VSread", 0), ("write", "VSwrite", 0), ("setname", "VSsetname", 0), ("setclass", "VSsetclass", 0)])
